@@ -7,10 +7,11 @@ import (
 )
 
 // C10: case forms (see coq/Extract/Run.v)
-//   (1 crc bytes)    updateCRC32
-//   (2 bytes)        computeCRC32
-//   (3 i)            tableCRC32[i]
-//   (4 crc a b)      updateCRC32(updateCRC32(crc,a),b)
+//
+//	(1 crc bytes)    updateCRC32
+//	(2 bytes)        computeCRC32
+//	(3 i)            tableCRC32[i]
+//	(4 crc a b)      updateCRC32(updateCRC32(crc,a),b)
 type c10 struct{}
 
 func init() { props["C10"] = c10{} }
